@@ -429,3 +429,52 @@ func GenSchedule(t *rapid.T, cfg OutCfg, idle bool) Schedule {
 	}
 	return s
 }
+
+// GenKeepaliveCase draws a case in which the source goes idle for longer than the keep-alive ticker at a chosen
+// command boundary (after a SELECT, after a plain command while it is still queued, right after MULTI, in the middle
+// of a transaction, after EXEC). The batch ticker is often longer than the keep-alive so that queued commands are
+// still unsent when the keep-alive fires. Returns configuration, stream and a command-aligned schedule.
+func GenKeepaliveCase(t *rapid.T, txn *bool) (OutCfg, []SrcCmd, Schedule) {
+	c := OutCfg{TargetDb: -1, Resume: true}
+	if txn != nil {
+		c.Txn = *txn
+	} else {
+		c.Txn = rapid.Bool().Draw(t, "txn")
+	}
+	c.Pipeline = rapid.Bool().Draw(t, "pipeline")
+	c.BatchCmdCount = uint(rapid.SampledFrom([]int{2, 3, 50, 50}).Draw(t, "batchCmdCount"))
+	c.BatchBufferSize = 65535
+	c.BatchTickerMs = rapid.SampledFrom([]int{5000, 5000, 20}).Draw(t, "batchTickerMs")
+	c.CpTickerMs = rapid.SampledFrom([]int{5000, 30}).Draw(t, "cpTickerMs")
+	c.KeepaliveMs = rapid.IntRange(1001, 1060).Draw(t, "keepaliveMs")
+	sel := func() SrcCmd {
+		return SrcCmd{Name: "SELECT", Args: []pbt.B{[]byte(strconv.Itoa(rapid.IntRange(0, 3).Draw(t, "db")))}}
+	}
+	var cmds []SrcCmd
+	cmds = append(cmds, sel())
+	var spots []int // command indexes after which the idle gap may be placed
+	spots = append(spots, 0)
+	for i, n := 0, rapid.IntRange(0, 3).Draw(t, "nplain"); i < n; i++ {
+		cmds = append(cmds, GenDataCmd().Draw(t, "cmd"))
+		spots = append(spots, len(cmds)-1)
+	}
+	if rapid.IntRange(0, 4).Draw(t, "hasTxn") != 0 {
+		if rapid.Bool().Draw(t, "selBeforeTxn") {
+			cmds = append(cmds, sel())
+		}
+		cmds = append(cmds, SrcCmd{Name: "MULTI"})
+		spots = append(spots, len(cmds)-1, len(cmds)-1) // right after MULTI: weighted
+		for i, n := 0, rapid.IntRange(0, 4).Draw(t, "ntxn"); i < n; i++ {
+			cmds = append(cmds, GenDataCmd().Draw(t, "tcmd"))
+			spots = append(spots, len(cmds)-1)
+		}
+		cmds = append(cmds, SrcCmd{Name: "EXEC"})
+		spots = append(spots, len(cmds)-1)
+	}
+	for i, n := 0, rapid.IntRange(0, 2).Draw(t, "ntail"); i < n; i++ {
+		cmds = append(cmds, GenDataCmd().Draw(t, "tail"))
+	}
+	at := rapid.SampledFrom(spots).Draw(t, "idleAfter")
+	s := Schedule{Chunks: []int{0}, Pauses: []Pause{{At: at, Ms: c.KeepaliveMs + 90}}}
+	return c, cmds, s
+}
